@@ -35,10 +35,15 @@ Section Expr.
     destruct (store_ok_nth G s x TBool Hs E) as [v [Hv Hok]]. destruct v as [b|]; [|discriminate]. exists b. unfold rd. now rewrite Hv.
   Qed.
 
+  Lemma rd_arr b n k j : arr_ok G b n k = true -> (j < n)%nat -> exists z, rd s (b + j) = Ok (VInt k z) /\ in_range k z = true.
+  Proof.
+    intros Ha Hj. destruct (arr_ok_slot G s b n k j Hs Ha Hj) as [z [Hnth Hr]]. exists z. unfold rd. rewrite Hnth. auto.
+  Qed.
+
   (* R's values stay in the operand type *)
   Lemma reval_in_range k : forall e z, tint true G k e = true -> reval s k e = Ok z -> in_range k z = true.
   Proof.
-    intros e. induction e as [u v|x|op e1 IH|op l IHl r IHr]; intros z Ht Hr.
+    intros e. revert k. induction e as [u v|x|op e1 IH|op l IHl r IHr|b0 lo n ki i IHi]; intros k z Ht Hr.
     - destruct u; destruct v as [b|k' z']; try discriminate; cbn in Ht; [destruct k'; discriminate|].
       apply andb_prop in Ht as [_ Hin]. cbn in Hr. unfold check in Hr. rewrite Hin in Hr. now inversion Hr; subst.
     - cbn in Ht, Hr. destruct (rd_int x k Ht) as [z' [Hrd Hin]]. rewrite Hrd in Hr. cbn in Hr. now inversion Hr; subst.
@@ -49,16 +54,22 @@ Section Expr.
       destruct op; try discriminate;
         try (destruct (b =? 0); [discriminate|]);
         match type of Hr with (if in_range k ?w then _ else _) = _ => destruct (in_range k w) eqn:E; inversion Hr; subst; exact E end.
+    - cbn [tint] in Ht. apply andb_prop in Ht as [Ht _]. apply andb_prop in Ht as [Ht _]. apply andb_prop in Ht as [Harr _].
+      cbn [reval] in Hr. destruct (reval s ki i) as [zi| |]; cbn [bind] in Hr; try discriminate.
+      destruct ((zi <? lo) || (lo + Z.of_nat n - 1 <? zi)) eqn:Eoob; [discriminate|].
+      apply orb_false_iff in Eoob as [E1 E2]. apply Z.ltb_ge in E1, E2.
+      destruct (rd_arr b0 n k (Z.to_nat (zi - lo)) Harr ltac:(lia)) as [ze [Hrd Hin]]. rewrite Hrd in Hr. cbn [bind] in Hr.
+      injection Hr as <-. exact Hin.
   Qed.
 
   (* integer expressions: M = R *)
   Lemma eval_int_refines k : forall e, tint true G k e = true -> eval o s e = bind (reval s k e) (fun z => Ok (VInt k z)).
   Proof.
-    intros e. induction e as [u v|x|op e1 IH|op l IHl r IHr]; intros Ht.
+    intros e. revert k. induction e as [u v|x|op e1 IH|op l IHl r IHr|b0 lo n ki i IHi]; intros k Ht.
     - destruct u; destruct v as [b|k' z']; try discriminate; cbn in Ht; [destruct k'; discriminate|].
       apply andb_prop in Ht as [Hk Hin]. apply ik_eqb_eq in Hk. subst k'. cbn. unfold check. now rewrite Hin.
     - cbn in Ht. destruct (rd_int x k Ht) as [z [Hrd Hin]]. cbn. now rewrite Hrd.
-    - destruct op; [|discriminate]. cbn in Ht. apply andb_prop in Ht as [Hsg Ht1]. cbn [eval reval]. rewrite (IH Ht1).
+    - destruct op; [|discriminate]. cbn in Ht. apply andb_prop in Ht as [Hsg Ht1]. cbn [eval reval]. rewrite (IH k Ht1).
       destruct (reval s k e1) as [a| |] eqn:Ea; cbn; try reflexivity.
       pose proof (reval_in_range k e1 a Ht1 Ea) as Hin. rewrite Hsg, Hneg. unfold check.
       destruct (a =? kmin k) eqn:Em.
@@ -68,7 +79,7 @@ Section Expr.
     - cbn [tint] in Ht. apply andb_prop in Ht as [Ht _]. apply andb_prop in Ht as [Ht Htr]. apply andb_prop in Ht as [Har Htl].
       assert (Hev : eval o s (EBin op l r) = bind (eval o s l) (fun lv => bind (eval o s r) (fun rv => apply_binary op lv rv)))
         by (destruct op; try discriminate; reflexivity).
-      rewrite Hev, (IHl Htl), (IHr Htr). cbn [reval].
+      rewrite Hev, (IHl k Htl), (IHr k Htr). cbn [reval].
       destruct (reval s k l) as [a| |] eqn:Ea; cbn; try reflexivity.
       destruct (reval s k r) as [b| |] eqn:Eb; cbn; try reflexivity.
       pose proof (reval_in_range k l a Htl Ea) as Ha. pose proof (reval_in_range k r b Htr Eb) as Hb.
@@ -85,6 +96,15 @@ Section Expr.
         * symmetry; apply check_from_wide.
         * destruct (b =? 0) eqn:E0; [reflexivity|]. apply Z.eqb_neq in E0. rewrite Z.quot_div_nonneg by lia. symmetry; apply check_from_wide.
         * destruct (b =? 0) eqn:E0; [reflexivity|]. apply Z.eqb_neq in E0. rewrite Z.rem_mod_nonneg by lia. symmetry; apply check_from_wide.
+    - (* array element: the index has its declared kind (not ULINT), so index_to_i64 is the identity; same bounds check, same slot *)
+      cbn [tint] in Ht. apply andb_prop in Ht as [Ht Hti]. apply andb_prop in Ht as [Ht _]. apply andb_prop in Ht as [Harr Hki].
+      cbn [eval reval]. rewrite (IHi ki Hti).
+      destruct (reval s ki i) as [zi| |]; cbn [bind]; try reflexivity.
+      unfold idx_slot. destruct (int_value_int ki zi) as [zi' [Ezi Hzi]]. rewrite Ezi. cbn [bind].
+      assert (Hne : ki <> KULInt) by (intro E; subst ki; discriminate). rewrite (Hzi Hne).
+      destruct ((zi <? lo) || (lo + Z.of_nat n - 1 <? zi)) eqn:Eoob; [reflexivity|]. cbn [bind].
+      apply orb_false_iff in Eoob as [E1 E2]. apply Z.ltb_ge in E1, E2.
+      destruct (rd_arr b0 n k (Z.to_nat (zi - lo)) Harr ltac:(lia)) as [ze [Hrd _]]. rewrite Hrd. reflexivity.
   Qed.
 End Expr.
 
@@ -98,16 +118,18 @@ Section BoolExpr.
   (* in the strict discipline the operand type of an integer expression is determined by the expression *)
   Lemma tint_infer k : forall e, tint true G k e = true -> infer_kind G e = Some k.
   Proof.
-    intros e. induction e as [u v|x|op e1 IH|op l IHl r IHr]; intros Ht.
+    intros e. induction e as [u v|x|op e1 IH|op l IHl r IHr|b0 lo n ki i IHi]; intros Ht.
     - destruct u; destruct v as [b|k' z']; try discriminate; cbn in Ht; [destruct k'; discriminate|].
       apply andb_prop in Ht as [Hk _]. apply ik_eqb_eq in Hk. now subst.
     - cbn in *. unfold ty_is_int in Ht. unfold var_kind. destruct (nth_error G x) as [[|k']|]; try discriminate. apply ik_eqb_eq in Ht. now subst.
     - destruct op; [|discriminate]. cbn in Ht. apply andb_prop in Ht as [_ Ht]. cbn. now apply IH.
     - cbn [tint] in Ht. apply andb_prop in Ht as [Ht _]. apply andb_prop in Ht as [Ht _]. apply andb_prop in Ht as [_ Htl]. cbn. now rewrite (IHl Htl).
+    - cbn [tint] in Ht. apply andb_prop in Ht as [Ht _]. apply andb_prop in Ht as [Ht _]. apply andb_prop in Ht as [Harr _]. cbn [infer_kind].
+      exact (arr_ok_base G b0 n k Harr).
   Qed.
   Lemma tint_not_bool k e : tint true G k e = true -> is_bool_expr G e = false.
   Proof.
-    destruct e as [u v|x|op e1|op l r]; cbn; intros Ht.
+    destruct e as [u v|x|op e1|op l r|b0 lo n ki i]; cbn; intros Ht; [| | | |reflexivity].
     - destruct u; destruct v as [b|k' z']; try discriminate; reflexivity.
     - unfold ty_is_int in Ht. unfold ty_is_bool. destruct (nth_error G x) as [[|k']|]; try discriminate; reflexivity.
     - destruct op; [reflexivity|discriminate].
@@ -115,7 +137,7 @@ Section BoolExpr.
   Qed.
   Lemma tbool_is_bool e : tbool true G e = true -> is_bool_expr G e = true.
   Proof.
-    destruct e as [u v|x|op e1|op l r]; cbn; intros Ht.
+    destruct e as [u v|x|op e1|op l r|b0 lo n ki i]; cbn; intros Ht; [| | | |discriminate].
     - destruct u; destruct v as [b|k' z']; try discriminate; reflexivity.
     - exact Ht.
     - destruct op; [discriminate|reflexivity].
@@ -138,7 +160,7 @@ Section BoolExpr.
 
   Lemma eval_bool_refines : forall e, tbool true G e = true -> eval o s e = bind (rbool G s e) (fun b => Ok (VBool b)).
   Proof.
-    intros e. induction e as [u v|x|op e1 IH|op l IHl r IHr]; intros Ht.
+    intros e. induction e as [u v|x|op e1 IH|op l IHl r IHr|b0 lo n ki i IHi]; intros Ht; [| | | |discriminate].
     - destruct u; destruct v as [b|k' z']; try discriminate; reflexivity.
     - cbn in Ht. destruct (rd_bool G s Hs x Ht) as [b Hb]. cbn. now rewrite Hb.
     - destruct op; [discriminate|]. cbn in Ht. cbn [eval rbool]. rewrite (IH Ht). destruct (rbool G s e1) as [b| |]; reflexivity.
@@ -268,7 +290,7 @@ Section Rel.
   Lemma step_rel n depth s st il : store_ok G s = true -> tstmt true G il st = true -> (il = true -> depth <> 0%nat) ->
     step o_ref (ev_ref G) ex1 n depth s st = step o (eval o) ex2 n depth s st.
   Proof.
-    intros Hs Ht Hil. destruct st as [x e|c t elifs el|sel brs el|x a b stp body|c body|body c| | |].
+    intros Hs Ht Hil. destruct st as [x e|b0 lo n0 ki i e|c t elifs el|sel brs el|x a b stp body|c body|body c| | |].
     - cbn [tstmt] in Ht. cbn [step]. destruct (nth_error G x) as [[|k]|] eqn:Ex; [| |discriminate].
       + rewrite (ev_ref_bool o Hneg G s Hs e Ht), (eval_bool_refines o Hneg G s Hs e Ht).
         destruct (rbool G s e) as [b| |]; cbn [bind]; try reflexivity.
@@ -276,6 +298,16 @@ Section Rel.
       + rewrite (ev_ref_int o Hneg G s Hs k e Ht), (eval_int_refines o Hneg G s Hs k e Ht).
         destruct (reval s k e) as [z| |]; cbn [bind]; try reflexivity.
         rewrite (write_rel s x (VInt k z) (TInt k) Hs Ex); [reflexivity|]. now exists z.
+    - (* element assignment: both sides evaluate value and index alike; the slot written is declared with the element kind *)
+      cbn [tstmt] in Ht. cbn [step]. destruct (var_kind G b0) as [k|] eqn:Ek; [|discriminate].
+      apply andb_prop in Ht as [Ht Hte]. apply andb_prop in Ht as [Ht Hti]. apply andb_prop in Ht as [Ht _]. apply andb_prop in Ht as [Harr _].
+      rewrite (ev_ref_int o Hneg G s Hs k e Hte), (eval_int_refines o Hneg G s Hs k e Hte).
+      destruct (reval s k e) as [z| |]; cbn [bind]; try reflexivity.
+      rewrite (ev_ref_int o Hneg G s Hs ki i Hti).
+      destruct (eval o s i) as [iv| |]; cbn [bind]; try reflexivity.
+      destruct (idx_slot b0 lo n0 iv) as [x| |] eqn:Ex; cbn [bind]; try reflexivity.
+      destruct (idx_slot_inv _ _ _ _ _ Ex) as [zi [_ [_ [-> Hj]]]].
+      rewrite (write_rel s _ (VInt k z) (TInt k) Hs (arr_ok_nth G b0 n0 k _ Harr Hj)); [reflexivity|]. now exists z.
     - rewrite tstmt_if in Ht. apply andb_prop in Ht as [Ht Hel]. apply andb_prop in Ht as [Ht Helifs]. apply andb_prop in Ht as [Hc Hthen].
       cbn [step]. rewrite (evb_rel s c Hs Hc). destruct (ev_bool (eval o) s c) as [bb| |]; cbn; try reflexivity.
       destruct bb; [now apply (rb_rel t depth s il)|now apply (elifs_rel elifs depth s il el)].
